@@ -507,17 +507,23 @@ def amalgamate_csr_to_x(
         grp.attrs.create(
             name='shape', data=np.array(final_shape))
 
+        # an array with no stored entries cannot be chunked by hand
+        if n_valid > 0:
+            data_chunks = (min(n_valid, 20000),)
+        else:
+            data_chunks = None
+
         dst_data = grp.create_dataset(
             'data',
             shape=(n_valid,),
-            chunks=min(n_valid, 20000),
+            chunks=data_chunks,
             dtype=data_dtype,
             compression=compression,
             compression_opts=compression_opts)
         dst_indices = grp.create_dataset(
             'indices',
             shape=(n_valid,),
-            chunks=min(n_valid, 20000),
+            chunks=data_chunks,
             dtype=index_dtype,
             compression=compression,
             compression_opts=compression_opts)
@@ -615,11 +621,17 @@ def amalgamate_dense_to_x(
         raise RuntimeError(
             f"Expected shape {final_shape}; found{found_shape}")
 
+    # an empty array cannot be chunked by hand
+    if n_rows > 0 and n_cols > 0:
+        data_chunks = (min(n_rows, 1000), min(n_cols, 1000))
+    else:
+        data_chunks = None
+
     with h5py.File(dst_path, 'a') as dst:
         dst_data = dst.create_dataset(
             dst_grp,
             shape=(n_rows, n_cols),
-            chunks=(min(n_rows, 1000), min(n_cols, 1000)),
+            chunks=data_chunks,
             dtype=data_dtype,
             compression=compression,
             compression_opts=compression_opts)
